@@ -49,7 +49,8 @@ class ScenarioManagerSd(ScenarioManager):
 
         self.base_constants = base_constants
         self.base_points = base_points
-        self.filenames = filenames
+        # the manager's own list: the factory appends to it in place, and the default argument is one list object for all managers
+        self.filenames = list(filenames)
 
         self.type = "sd"
 
